@@ -230,6 +230,59 @@ def _path(ctx, params):
         ctx.check("C05.nfev_equals_calls", res["nfev"] != nfev_base + len(run.fcalls), info=dict(info, nfev=res["nfev"], calls=len(run.fcalls), base=nfev_base))
         ngrad = len(run.gcalls) if callable_grad else len(run.fd_calls)
         ctx.check("C05.njev_equals_calls", res["njev"] != njev0 + ngrad, info=dict(info, njev=res["njev"], calls=ngrad, base=njev0))
+    # ------------------------------------------------------------------ C02 (run level, exact reals)
+    if "C02" in groups:
+        def out_of_box(pt):
+            t = []
+            for i in range(n):
+                if not lb[i].is_special:
+                    t.append(_b(SReal.of(pt[i]) < lb[i]))
+                if not ub[i].is_special:
+                    t.append(_b(SReal.of(pt[i]) > ub[i]))
+            return t
+        terms = []
+        for pt, _v in run.fcalls:
+            terms += out_of_box(pt)
+        for pt, _v in run.gcalls:
+            terms += out_of_box(pt)
+        ctx.check("C02.evaluation_points_in_box", zor(terms), info=dict(info, calls=len(run.fcalls)))
+        terms = out_of_box(x)
+        for c in run.cb:
+            terms += out_of_box(c["snap"]["x"]) + out_of_box(c["xk_snap"])
+        ctx.check("C02.reported_points_in_box", zor(terms), info=info)
+        fixed = []
+        for i in range(n):
+            if not lb[i].is_special and not ub[i].is_special:
+                eq = lb[i] == ub[i]
+                if eq is False:
+                    continue
+                pts = [x] + [c["snap"]["x"] for c in run.cb] + [p for p, _ in run.fcalls]
+                for pt in pts:
+                    mv = eqv(pt[i], lb[i])
+                    if mv is False:
+                        continue
+                    fixed.append(z3.And(orch._b(eq) if not isinstance(eq, bool) else z3.BoolVal(eq), mv if not isinstance(mv, bool) else z3.BoolVal(mv)))
+        ctx.check("C02.fixed_components_never_move", zor(fixed), info=info)
+    # ------------------------------------------------------------------ C16 (finite-difference plumbing at run level)
+    if "C16" in groups and not callable_grad:
+        mode = params.get("jac_mode")
+        ctx.check("C16.nfev_counts_stencil_evaluations", res["nfev"] != nfev_base + len(run.fcalls), info=dict(info, nfev=res["nfev"], calls=len(run.fcalls)))
+        bad = []
+        terms = []
+        for rec in run.fd_calls:
+            exp_method = "2-point" if mode == "none" else mode
+            if rec["method"] != exp_method:
+                bad.append("method %r instead of %r" % (rec["method"], exp_method))
+            b_lo, b_hi = rec["bounds"]
+            terms.append(diff_lists(list(b_lo.data), lb))
+            terms.append(diff_lists(list(b_hi.data), ub))
+            # the base value handed to the differencing routine is the objective at that very point (unscaled)
+            terms.append(eqv(rec["f0"], prob.f(rec["x0"])[0]))
+            if mode == "none" and rec["abs_step"] is None:
+                bad.append("no absolute step for jac=None")
+            if mode != "none" and rec["abs_step"] is not None:
+                bad.append("absolute step given in relative-step mode")
+        ctx.check("C16.differencing_called_with_problem_bounds_and_current_value", True if bad else zor(terms), info=dict(info, problems=bad))
     # ------------------------------------------------------------------ C03
     if "C03" in groups and not params.get("scaler"):
         seq = []
